@@ -292,6 +292,16 @@ class Machine:
                 return HDR
             if e.id in ("True", "False", "None"):
                 return {"True": True, "False": False, "None": None}[e.id]
+            # a module-level constant (tuple / list of literals, a literal)
+            for st in getattr(self.mod, "tree", ast.Module(body=[])).body:
+                if isinstance(st, ast.Assign) and len(st.targets) == 1 and \
+                        isinstance(st.targets[0], ast.Name) and \
+                        st.targets[0].id == e.id:
+                    try:
+                        v = ast.literal_eval(st.value)
+                    except Exception:
+                        return OPAQUE
+                    return tuple(v) if isinstance(v, (list, tuple)) else v
             return OPAQUE
         if isinstance(e, (ast.Tuple, ast.List)):
             return tuple(self.ev(x, env, header) for x in e.elts)
